@@ -11,7 +11,7 @@ RULE = ("shapes enumerated exhaustively within the tier's bound (quick: 1..5 axe
         "axes and lengths 1..5); per shape: iter_indices history (elements+3 calls, len interleaved), every axis 0..d+1 x "
         "every position 0..len (in and out of range) view-iterator history continued 3 calls past exhaustion, iter_axis "
         "history, get AND get_mut (with a write through it: exactly that position changes) at every in-range index of small shapes plus out-of-range (up to two past the end) / wrong-length indices, sum along every "
-        "axis; debug build (thorough: also release). non-trivial = model output contains at least one yielded item; View::to_array of every axis view: shape, data, get at every index, views of the copy; histories continued on a clone of a partly consumed view iterator, along every axis; Iterator::last and count on the view iterator at every position of a history")
+        "axis; debug build (thorough: also release). non-trivial = model output contains at least one yielded item; View::to_array of every axis view: shape, data, get at every index, views of the copy; histories continued on a clone of a partly consumed view iterator, along every axis; Iterator::last and count on the view iterator at every position of a history; count / last / for_each on the axis iterator in and out of range")
 
 
 def fmt(l):
@@ -48,6 +48,14 @@ def cases_for_shape(sh, rng, small):
             Ev = E // sh[a] if a < d else 0
             cs.append("view %s %d %d %d" % (fmt(sh), a, i, Ev + 3))
             cs.append("getaxis %s %d %d" % (fmt(sh), a, i))
+    # the provided methods of Iterator on the AXIS iterator (count, last, for_each - everything that runs through fold), after
+    # 0..len+1 calls of next, for every axis in range and two out of range (an axis the array does not have has no views)
+    if E <= 400:
+        for a in range(d + 2):
+            n = sh[a] if a < d else 0
+            for k_ in sorted(set([0, 1, n // 2, n, n + 1])):
+                for what in ("count", "last", "foreach"):
+                    cs.append("axisfold %s %d %d %s" % (fmt(sh), a, k_, what))
     # View::to_array: the owned copy of every axis view (and of the positions one past the end: no view) indexes like an
     # array of the remaining axes (Proofs/ToArrayP.v) and has views of its own
     if E <= 400:
@@ -118,6 +126,29 @@ def classify(case, m, i):
     return "array-api:" + case.split()[0]
 
 
+def zero_axis_cases():
+    """arrays with an axis of length zero (no elements): requests in and out of range answer None / an empty view / nothing to
+    iterate - they do not panic (F26: get_axis sliced the empty data at a non-zero offset)"""
+    cs = []
+    for sh in ([0], [0, 3], [3, 0], [2, 0, 2], [0, 0], [4, 1, 0], [0, 2, 5]):
+        d = len(sh)
+        cs.append("indices %s 3" % fmt(sh))
+        cs.append("get %s %s" % (fmt(sh), fmt([0] * d)))
+        cs.append("getmut %s %s" % (fmt(sh), fmt([0] * d)))
+        for a in range(d + 1):
+            n = sh[a] if a < d else 0
+            cs.append("axisiter %s %d %d" % (fmt(sh), a, n + 2))
+            for what in ("count", "last", "foreach"):
+                cs.append("axisfold %s %d 0 %s" % (fmt(sh), a, what))
+            for i in range(n + 1):
+                cs.append("getaxis %s %d %d" % (fmt(sh), a, i))
+                cs.append("view %s %d %d 2" % (fmt(sh), a, i))
+                cs.append("toarray %s %d %d" % (fmt(sh), a, i))
+            if a < d:
+                cs.append("sum %s %d -" % (fmt(sh), a))
+    return cs
+
+
 def check(rep, tier, seed):
     rng = random.Random(seed)
     shapes, exhaustive = shapes_for(tier, rng)
@@ -128,7 +159,11 @@ def check(rep, tier, seed):
         cases += cases_for_shape(sh, rng, tier == "thorough")
     compare_cases(rep, "array-api", cases, nontrivial=nontrivial, classify=classify, spec=True,
                   both_builds=(tier == "thorough"))
-    rep.assumptions += ["axis lengths >= 1 (theorems carry positive_shape); zero-length axes are C17's subject",
+    # "arrays of every shape": shapes with an axis of length zero, too (outside the theorems' positive_shape, inside the
+    # property's statement - the executable model answers, the implementation must not panic and must agree)
+    compare_cases(rep, "array-api-zero-length-axis", zero_axis_cases(), nontrivial=lambda c, m: True, classify=lambda c, m, i: "array:zero-length-axis" + (":panic" if "PANIC" in i else ""), spec=True,
+                  both_builds=(tier == "thorough"))
+    rep.assumptions += ["the theorems carry positive_shape (axis lengths >= 1); zero-length axes are exercised against the executable model only",
                         "element values are the row-major ramp (identifies positions) or small integers (sum), exact in f64"]
 
 
